@@ -1,0 +1,42 @@
+//go:build verif
+// +build verif
+
+package moss
+
+import (
+	"sync/atomic"
+)
+
+// Instrumentation points for external verification harnesses (build
+// tag "verif").  The hooks carry no state and assert nothing; they
+// only let a harness observe, delay or park background steps.
+
+type verifHookFn func(point string, obj interface{})
+type verifRemoveFn func(path string)
+
+var verifHookV atomic.Value   // holds verifHookFn
+var verifRemoveV atomic.Value // holds verifRemoveFn
+
+// VerifSetHook installs (or, with nil, removes) the callback invoked
+// at every verifAt() instrumentation point.
+func VerifSetHook(f func(point string, obj interface{})) {
+	verifHookV.Store(verifHookFn(f))
+}
+
+// VerifSetRemoveHook installs (or, with nil, removes) the callback
+// invoked right before moss unlinks a file.
+func VerifSetRemoveHook(f func(path string)) {
+	verifRemoveV.Store(verifRemoveFn(f))
+}
+
+func verifAt(point string, obj interface{}) {
+	if f, ok := verifHookV.Load().(verifHookFn); ok && f != nil {
+		f(point, obj)
+	}
+}
+
+func verifOnRemove(path string) {
+	if f, ok := verifRemoveV.Load().(verifRemoveFn); ok && f != nil {
+		f(path)
+	}
+}
